@@ -9,24 +9,26 @@ Open Scope R_scope.
 
 Definition blend (gamma dt m x g : R) : R := (x + g * dt) * gamma + m * (1 - gamma).
 
-(* one step (MARG): the new angles are the blend of the integrated previous angles and am_estimation(acc, mag),
-   whatever the latter is (it is the regenerated am_estimation, with its atan2's) *)
+(* every gate  0 < sqrt e  /  0 = sqrt e  whose radicand is positive by the hypotheses is decided, whatever their number
+   and order (the code guards null accelerometer / magnetometer rows; the property's setting has neither) *)
+Ltac gates := repeat gate_sqrt_pos ltac:(lra).
+
+(* one step (MARG), non-null accelerometer and magnetometer rows: the new angles are the blend of the integrated previous
+   angles and am_estimation(acc, mag), whatever the latter is (it is the regenerated am_estimation, with its atan2's) *)
 Lemma compl_marg_step e0 e1 e2 u0 u1 u2 gx gy gz ax ay az mx my mz dt gamma :
-  0 < mx*mx + my*my + mz*mz ->
+  0 < ax*ax + ay*ay + az*az -> 0 < mx*mx + my*my + mz*mz ->
   exists m0 m1 m2, C05_compl_am_R ax ay az mx my mz = Val [m0;m1;m2] /\
   C05_compl_marg_R e0 e1 e2 u0 u1 u2 gx gy gz ax ay az mx my mz dt gamma
   = Val [blend gamma dt m0 e0 gx; blend gamma dt m1 e1 gy; blend gamma dt m2 e2 gz].
 Proof.
-  intros Hm. unfold C05_compl_am_R, C05_compl_marg_R. cbv zeta.
-  assert (P : 0 < sqrt (mx*mx + my*my + mz*mz)) by (apply sqrt_lt_R0; exact Hm).
-  destruct (Req_EM_T 0 (sqrt (mx*mx + my*my + mz*mz))) as [E|_]; [exfalso; lra|].
+  intros Ha Hm. unfold C05_compl_am_R, C05_compl_marg_R. cbv zeta. gates.
   do 3 eexists. split; [reflexivity|]. unfold blend. val_eq; ring.
 Qed.
 (* IMU: roll and pitch are blended, the yaw slot is not touched by the loop (stays 0) *)
-Lemma compl_imu_step e0 e1 e2 u0 u1 u2 gx gy gz ax ay az dt gamma :
+Lemma compl_imu_step e0 e1 e2 u0 u1 u2 gx gy gz ax ay az dt gamma : 0 < ax*ax + ay*ay + az*az ->
   exists m0 m1, C05_compl_imu_R e0 e1 e2 u0 u1 u2 gx gy gz ax ay az dt gamma
   = Val [blend gamma dt m0 e0 gx; blend gamma dt m1 e1 gy; 0].
-Proof. unfold C05_compl_imu_R. cbv zeta. do 2 eexists. unfold blend. val_eq; try ring. Qed.
+Proof. intros Ha. unfold C05_compl_imu_R. cbv zeta. gates. do 2 eexists. unfold blend. val_eq; try ring. Qed.
 
 (* scalar iteration of the blend over a gyro history *)
 Fixpoint iter (gamma dt m x : R) (gs : list R) : R :=
@@ -79,16 +81,16 @@ Fixpoint run (ax ay az mx my mz dt gamma : R) (st : R * R * R) (gs : list (R * R
       end
   end.
 
-Lemma run_is_iter ax ay az mx my mz dt gamma : 0 < mx*mx + my*my + mz*mz ->
+Lemma run_is_iter ax ay az mx my mz dt gamma : 0 < ax*ax + ay*ay + az*az -> 0 < mx*mx + my*my + mz*mz ->
   exists m0 m1 m2, C05_compl_am_R ax ay az mx my mz = Val [m0;m1;m2] /\
   forall gs a b c, run ax ay az mx my mz dt gamma (a, b, c) gs
     = Val [iter gamma dt m0 a (map (fun g => fst (fst g)) gs); iter gamma dt m1 b (map (fun g => snd (fst g)) gs);
            iter gamma dt m2 c (map snd gs)].
 Proof.
-  intros Hm. destruct (compl_marg_step 0 0 0 0 0 0 0 0 0 ax ay az mx my mz dt gamma Hm) as (m0 & m1 & m2 & Ham & _).
+  intros Ha Hm. destruct (compl_marg_step 0 0 0 0 0 0 0 0 0 ax ay az mx my mz dt gamma Ha Hm) as (m0 & m1 & m2 & Ham & _).
   exists m0, m1, m2. split; [exact Ham|].
   induction gs as [|[[gx gy] gz] t IH]; intros a b c.
   - reflexivity.
-  - simpl. destruct (compl_marg_step a b c 0 0 0 gx gy gz ax ay az mx my mz dt gamma Hm) as (n0 & n1 & n2 & Ham' & Hs).
+  - simpl. destruct (compl_marg_step a b c 0 0 0 gx gy gz ax ay az mx my mz dt gamma Ha Hm) as (n0 & n1 & n2 & Ham' & Hs).
     rewrite Ham in Ham'. injection Ham' as <- <- <-. rewrite Hs. apply IH.
 Qed.
